@@ -123,6 +123,10 @@ def options(scn):
         o.append("opt:-k")
     if scn["nosync"]:
         o.append("opt:--no-sync")
+    if scn.get("ignored"):
+        o.append("inherited-ignored:" + "+".join(scn["ignored"]))
+    if scn.get("warn_operand"):
+        o.append("warning-only-operand" + ("+-Q" if scn.get("no_warn") else ""))
     if scn["abs"]:
         o.append("opt:absolute-paths")
     if scn["damage"]:
@@ -199,7 +203,7 @@ class Plan:
         self.files["zz-bystander"] = BYSTANDER
         self.files["zz-bystander.xz"] = BYSTANDER
         if scn["via_files"]:
-            self.files["zz-list"] = b"".join(self.arg_name(i).encode() + b"\n" for i in range(n))
+            self.files["zz-list"] = b"".join(self.arg_name(i).encode() + b"\n" for i in range(n)) + (b"zz-dir\n" if scn.get("warn_operand") else b"")
 
     def arg_name(self, i, w="@W@"):
         return os.path.join(w, self.src_names[i]) if self.scn["abs"] else self.src_names[i]
@@ -227,11 +231,15 @@ class Plan:
             a.append("--no-sync")
         if s["threads"]:
             a.append("-T%d" % s["threads"])
+        if s.get("no_warn"):
+            a.append("-Q")
         if s["via_files"]:
             a.append("--files=zz-list")
         else:
             a.append("--")
             a += [self.arg_name(i, w) for i in range(len(self.src_names))]
+        if s.get("warn_operand"):
+            a.append("zz-dir")          # a directory: xz warns ("Is a directory, skipping") and goes on; status 2, or 0 with -Q
         return a
 
     def roles(self, w):
@@ -267,6 +275,13 @@ def run_one(task):
     os.makedirs(w)
     for name in os.listdir(task["tmpl"]):
         shutil.copy2(os.path.join(task["tmpl"], name), os.path.join(w, name))
+    os.mkdir(os.path.join(w, "zz-dir"))
+    ignored = [getattr(signal, "SIG" + n) for n in task.get("ignored", [])]
+
+    def pre():          # signals the invoking environment left ignored (a background job: INT/QUIT, nohup: HUP); xz keeps ignoring them
+        for sg in ignored:
+            signal.signal(sg, signal.SIG_IGN)
+    prefn = pre if ignored else None
     if task.get("list_abs"):
         with open(os.path.join(w, "zz-list"), "rb") as f:
             data = f.read()
@@ -284,7 +299,7 @@ def run_one(task):
     res = {"plan": task["plan"], "k": task.get("k"), "kind": task.get("kind"), "timeout": False}
     try:
         if so == "pipe":
-            p = subprocess.run(argv, stdin=subprocess.DEVNULL, stdout=subprocess.PIPE, stderr=subprocess.PIPE, env=env, cwd=w, timeout=RUN_TIMEOUT)
+            p = subprocess.run(argv, stdin=subprocess.DEVNULL, stdout=subprocess.PIPE, stderr=subprocess.PIPE, env=env, cwd=w, timeout=RUN_TIMEOUT, preexec_fn=prefn)
             with open(outpath, "wb") as f:
                 f.write(p.stdout)
         elif so in ("file", "append"):
@@ -293,11 +308,11 @@ def run_one(task):
                     f.write(STDOUT_PREFIX)
             fd = os.open(outpath, os.O_WRONLY | os.O_CREAT | (os.O_APPEND if so == "append" else os.O_TRUNC), 0o644)
             try:
-                p = subprocess.run(argv, stdin=subprocess.DEVNULL, stdout=fd, stderr=subprocess.PIPE, env=env, cwd=w, timeout=RUN_TIMEOUT)
+                p = subprocess.run(argv, stdin=subprocess.DEVNULL, stdout=fd, stderr=subprocess.PIPE, env=env, cwd=w, timeout=RUN_TIMEOUT, preexec_fn=prefn)
             finally:
                 os.close(fd)
         else:
-            p = subprocess.run(argv, stdin=subprocess.DEVNULL, stdout=subprocess.PIPE, stderr=subprocess.PIPE, env=env, cwd=w, timeout=RUN_TIMEOUT)
+            p = subprocess.run(argv, stdin=subprocess.DEVNULL, stdout=subprocess.PIPE, stderr=subprocess.PIPE, env=env, cwd=w, timeout=RUN_TIMEOUT, preexec_fn=prefn)
             res["stray_stdout"] = len(p.stdout)
         res["rc"] = p.returncode
         res["stderr"] = p.stderr.decode(errors="replace")[-600:]
@@ -475,7 +490,7 @@ class Judge:
         if rc is None:
             raise Inconclusive("timeout-libdec")  # watchdog: no verdict
         if rc != 0:
-            raise RuntimeError("libdec helper failed (rc=%s): %s" % (rc, (so + se)[-600:]))
+            raise RuntimeError("libdec helper failed (rc=%s): %s scenario=%s" % (rc, (so + se)[-600:], json.dumps(self.plan.scn)))
         ok = False
         try:
             if rc == 0:
@@ -498,6 +513,10 @@ class Judge:
         if key not in self.cache:
             if self.plan.scn["mode"] == "decompress":
                 self.cache[key] = entry[0] == sha(self.plan.plains[i]) and entry[1] == len(self.plan.plains[i])
+            elif entry[1] == 0 or entry[0] == sha(self.plan.plains[i]):
+                # an empty file, or a file identical to the plaintext, is not a compressed file (and its run directory may already be
+                # gone: the workers discard directories whose target bytes are "known", which includes the plaintexts)
+                self.cache[key] = False
             else:
                 self.cache[key] = self._libdec(os.path.join(w, self.plan.tgt_names[i]), self.plan.plains[i])
         return self.cache[key]
@@ -548,6 +567,10 @@ def evaluate(plan, judge, S, res, baseline=False):
     is_kill = kind.startswith("kill")
     is_signal = kind.startswith("signal=") or kind.startswith("sigerr=")
     signame = kind.split("=", 1)[1].split(",")[0] if is_signal else None
+    if kind.startswith("sigerr=") and signame in scn.get("ignored", []):
+        # the signal itself is ignored by inheritance; what remains is a call that failed with the given errno
+        kind = "errno=" + (kind.split(",", 1)[1] if "," in kind else "EINTR")
+        is_signal, signame = False, None
     why = lambda: describe(plan, res, tr, fired)  # noqa: E731
 
     check_order(tr, scn, "plan=%s family=%s" % (res["plan"], plan.family))
@@ -608,8 +631,12 @@ def evaluate(plan, judge, S, res, baseline=False):
         done = [t_state[i] == "valid" and (s_state[i] == "missing" or scn["keep"]) for i in range(n)]
     all_done = all(done)
 
-    if baseline or fired is None:
-        # fault free: the expected outcome exactly
+    ignored_signal = bool(fired) and kind.startswith("signal=") and signame in scn.get("ignored", [])
+    if ignored_signal:
+        S.count("signal_ignored_by_inheritance_must_change_nothing")
+    ok_status = (0 if scn.get("no_warn") else 2) if scn.get("warn_operand") else 0
+    if baseline or fired is None or ignored_signal:
+        # fault free (or a signal that the environment told xz to ignore): the expected outcome exactly
         for i in range(n):
             if plan.to_stdout:
                 continue
@@ -620,11 +647,11 @@ def evaluate(plan, judge, S, res, baseline=False):
         if all(plan.expect_done):
             if plan.to_stdout and not out_valid:
                 raise base.Violation("C17:baseline-not-done", "fault free run with -c did not produce the expected stream; %s" % why())
-            if rc != 0:
-                raise base.Violation("C17:baseline-not-done", "fault free run exits %s; %s" % (rc, why()))
+            if rc != ok_status:
+                raise base.Violation("C17:baseline-not-done", "fault free run exits %s (expected %s); %s" % (rc, ok_status, why()))
         elif rc != 1:
             raise base.Violation("C17:status-zero-after-error", "input %s but exit status %s (expected 1); %s" % ("damaged" if scn["damage"] else "refused", rc, why()))
-        return tr, fired, "baseline"
+        return tr, fired, "baseline" if not ignored_signal else "signal:ignored-by-inheritance"
 
     if rc is not None and rc < 0 and -rc in CRASH_SIGNALS:
         raise base.Violation("C17:crash", "xz died by signal %d after the injected fault (%s); %s" % (-rc, state, why()))
@@ -685,6 +712,12 @@ def evaluate(plan, judge, S, res, baseline=False):
         return tr, fired, outcome
 
     # error kinds (errno / eintr / eagain-once / short)
+    if not all_done and rc == 0 and scn.get("no_warn") and fired["name"] == "unlink" and role_kind(fired["role"])[0] == "source" \
+            and all(done[i] or (s_state[i] == "intact" and t_state[i] == "valid") for i in range(n)):
+        # the only thing that failed is the removal of a source whose complete, valid target exists: xz reports it as a warning
+        # ("Cannot remove"), nothing is lost, and -Q (--no-warn) asks for exit status 0 on warnings
+        S.count("source-not-removable-is-a-warning-status-0-with--Q")
+        return tr, fired, "error:completed-source-kept:status0"
     if not all_done and rc == 0:
         raise base.Violation("C17:status-zero-after-error", "fault %s hit %s(%s), the operation was not completed (%s) but xz exits 0; %s"
                              % (kind, fired["name"], fired["role"], state, why()))
@@ -784,7 +817,7 @@ def _oracle(scn, S, plan, d):
 
     def task(seq, plan_text, k=None, kind=None):
         return {"rundir": os.path.join(d, "r%d" % seq), "tmpl": tmpl, "argv": plan.argv("@W@"), "roles": plan.roles("@W@"), "plan": plan_text, "k": k, "kind": kind,
-                "stdout": scn["stdout"], "known": known, "targets": [] if plan.to_stdout else plan.tgt_names, "list_abs": scn["via_files"] and scn["abs"]}
+                "stdout": scn["stdout"], "known": known, "targets": [] if plan.to_stdout else plan.tgt_names, "list_abs": scn["via_files"] and scn["abs"], "ignored": scn.get("ignored", [])}
 
     S.count("scenarios:" + plan.family)
     for o in options(scn):
@@ -887,7 +920,12 @@ def _scenario(draw):
             damage = {"kind": "truncate", "num": num}
         else:
             damage = {"kind": "flip", "num": num, "bit": draw(st.integers(0, 7))}
+    ignored = draw(st.sampled_from([[], [], [], [], ["INT"], ["HUP"], ["INT", "QUIT"]]))
+    warn_operand = draw(st.sampled_from([False, False, False, True]))
+    no_warn = warn_operand and draw(st.booleans())
     pools = [ERR_KINDS, ERR_KINDS, SIG_KINDS, KILL_KINDS]
+    if ignored:
+        pools.append(SIG_KINDS)
     if stdout == "pipe":
         pools.append(PIPE_KINDS)
     nf = draw(st.sampled_from([1, 2, 2, 3]))
@@ -898,6 +936,7 @@ def _scenario(draw):
             faults.append(f)
     return {
         "mode": mode, "fmt": fmt, "stdout": stdout, "via_files": via_files, "keep": keep, "force": force, "pre_target": pre_target, "nosync": nosync,
+        "ignored": ignored, "warn_operand": warn_operand, "no_warn": no_warn,
         "threads": threads, "abs": draw(st.sampled_from([False, False, True])), "names": list(names), "contents": contents, "damage": damage,
         "preset": draw(st.sampled_from([0, 0, 0, 1, 1, 6])), "check": draw(st.sampled_from(["crc64", "crc64", "crc32", "sha256"])),
         "faults": faults, "picks": draw(st.lists(st.integers(0, 99999), min_size=32, max_size=32)),
@@ -924,6 +963,21 @@ def fixed_scenarios(S, tier, seed):
                "faults": ["errno=ENOSPC", "errno=EIO"], "picks": [r.randrange(0, 99999) for _ in range(32)]}
         S.evaluations += 1
         S.count("fixed_multi_file_scenarios")
+        try:
+            oracle(scn, S)
+        except base.Violation as v:
+            v.scenario = scn
+            raise
+    # the invoking environment: signals inherited as ignored (xz must keep ignoring exactly those and still handle the others), and a
+    # warning-only operand next to a failing file with -Q (the failure must still decide the exit status)
+    for extra in ({"ignored": ["INT"], "faults": ["signal=TERM", "signal=INT", "signal=HUP"]}, {"ignored": ["HUP"], "faults": ["signal=INT", "signal=HUP"]},
+                  {"warn_operand": True, "no_warn": True, "faults": ["errno=ENOSPC", "errno=EIO"]}, {"warn_operand": True, "no_warn": False, "faults": ["errno=EIO", "signal=TERM"]}):
+        scn = {"mode": r.choice(["compress", "decompress"]), "fmt": "xz", "stdout": None, "via_files": False, "keep": False, "force": False, "pre_target": False, "nosync": True,
+               "threads": 1, "abs": False, "names": ["a"], "contents": [{"kind": "text", "size": 40000 + r.randrange(0, 3000), "seed": r.randrange(0, 2**31 - 1)}], "damage": None, "preset": 0, "check": "crc64",
+               "ignored": [], "warn_operand": False, "no_warn": False, "picks": [r.randrange(0, 99999) for _ in range(32)]}
+        scn.update(extra)
+        S.evaluations += 1
+        S.count("fixed_environment_scenarios")
         try:
             oracle(scn, S)
         except base.Violation as v:
